@@ -864,37 +864,6 @@ fn check_history(d: &DocSpec, ops: &[Op], active: &[usize], walk_seed: u64) -> R
     }
 }
 
-/// Which preconditions of the known defect classes hold at the moment an operation of the (minimised) history is applied:
-///   1  scroll_area_up/down on a non-empty area narrower than the layer and ONE row high (the drained row is never re-inserted)
-///   2  scroll_area_up/down on a non-empty area narrower than the layer, two or more rows high
-/// (the bits 4, 8, 16, 32 of the SAUCE-size / add-font / set-font / font-slot classes are gone with their fix commits: a failure there
-/// is a VIOLATION)
-fn facts(d: &DocSpec, ops: &[Op], idxs: &[usize]) -> i64 {
-    let mut st = build(d);
-    let mut f = 0i64;
-    for &i in idxs {
-        let op = &ops[i];
-        let a = |k: usize| -> i64 { op.a.get(k).copied().unwrap_or(0) };
-        match op.name.as_str() {
-            "scrup" | "scrdown" => {
-                if let Some(layer) = st.get_cur_layer() {
-                    let lr = layer.get_rectangle();
-                    let area = match st.get_selection() {
-                        Some(sel) => sel.as_rectangle().intersect(&lr),
-                        None => lr,
-                    };
-                    if !area.is_empty() && area.get_width() < layer.get_width() {
-                        f |= if area.get_height() == 1 { 1 } else { 2 };
-                    }
-                }
-            }
-            _ => {}
-        }
-        let _ = apply_caught(&mut st, op);
-    }
-    f
-}
-
 fn same_class(a: &Failure, b: &Failure) -> bool {
     let cat = |f: &Failure| f.detail.first().copied().unwrap_or(0);
     a.code == b.code && (!(matches!(a.code, 3 | 6 | 9 | 10)) || cat(a) == cat(b))
@@ -933,9 +902,6 @@ fn hist(args: &[&str]) -> Obs {
             let mut v = vec![curf.code, curf.step, cur.len() as i64];
             v.extend(cur.iter().map(|x| *x as i64));
             v.extend(curf.detail.iter());
-            // the preconditions of the known defect classes, evaluated on the minimised history (see `facts`)
-            v.push(-777);
-            v.push(facts(&d, &ops, &cur));
             Ok(v)
         }
     }
